@@ -275,3 +275,21 @@ M("c10.name-select-uses-match", "C10", MOD, "        return not config.name or c
 M("c10.listfile-relative-to-cwd", "C10", RU, "        here = os.path.dirname(filename) or \".\"", "        here = \".\"")
 M("c10.outline-name-select-first-row-only", "C10", MOD, "        for scenario in self.scenarios:     # -- REQUIRE: BUILD-SCENARIOS\n            if scenario.should_run_with_name_select(config):\n                return True\n        # -- NOTHING SELECTED:\n        return False",
   "        for scenario in self.scenarios[:1]:     # -- REQUIRE: BUILD-SCENARIOS\n            if scenario.should_run_with_name_select(config):\n                return True\n        # -- NOTHING SELECTED:\n        return False")
+
+# ---- C11 -------------------------------------------------------------------
+MAT = "behave/matchers.py"
+SR = "behave/step_registry.py"
+M("c11.parse-case-insensitive", "C11", MAT, "    CASE_SENSITIVE = True", "    CASE_SENSITIVE = False")
+M("c11.args-not-sorted", "C11", MAT, "        args.sort(key=lambda x: x.start)\n", "")
+M("c11.named-args-passed-positionally", "C11", MAT, "            if arg.name is not None:\n                kwargs[arg.name] = arg.value\n            else:\n                args.append(arg.value)", "            args.append(arg.value)")
+M("c11.re-not-anchored-at-end", "C11", MAT, '        expression = r"^%s$" % pattern', '        expression = r"^%s" % pattern')
+M("c11.generic-list-searched-first", "C11", SR, "            candidates = list(candidates)\n            candidates += more_steps\n\n        for step_definition in candidates:\n            result = step_definition.match(step.name)",
+  "            candidates = list(more_steps) + list(candidates)\n\n        for step_definition in candidates:\n            result = step_definition.match(step.name)")
+M("c11.candidates-reversed", "C11", SR, "        for step_definition in candidates:\n            result = step_definition.match(step.name)", "        for step_definition in reversed(list(candidates)):\n            result = step_definition.match(step.name)")
+M("c11.ambiguity-only-identical", "C11", SR, "            if existing.matches(step_text):", "            if existing.pattern == step_text:")
+M("c11.span-end-off-by-one", "C11", MAT, "            args.append(Argument(start, end, step_text[start:end], value, name))", "            args.append(Argument(start, end + 1, step_text[start:end], value, name))")
+M("c11.find-match-leaks-generic-into-type-list", "C11", SR, "            candidates = list(candidates)\n            candidates += more_steps\n\n        for step_definition in candidates:\n            result = step_definition.match(step.name)",
+  "            candidates += more_steps\n\n        for step_definition in candidates:\n            result = step_definition.match(step.name)")
+M("c11.default-matcher-not-reset-after-module", "C11", RU, "                    exec_file(os.path.join(path, name), step_module_globals)\n                use_default_step_matcher()", "                    exec_file(os.path.join(path, name), step_module_globals)")
+M("c11.regex-missing-group-dropped", "C11", MAT, "        for index, group in enumerate(matched.groups()):\n            index += 1\n            name = group_index.get(index, None)", "        for index, group in enumerate(matched.groups()):\n            index += 1\n            if matched.start(index) < 0:\n                continue\n            name = group_index.get(index, None)")
+M("c11.same-definition-check-uses-raw-text", "C11", SR, "            if self.same_step_definition(existing, new_step_matcher.pattern,\n                                         step_location):", "            if self.same_step_definition(existing, step_text, step_location):")
